@@ -20,16 +20,6 @@ ORIG, NOW = "old(self).flavor.rem()", "final(self).flavor.rem()"
 ERR = "Err::<V::Value, Error>(Error::%s)"
 
 
-HINT = """        proof {
-            let ghost orig = old(self).flavor.rem();
-            match dec_u64(orig) {
-                DecRes::Ok(n0, used) => { assert(orig.subrange(used, orig.len() as int).subrange(0, n0 as int) =~= orig.subrange(used, used + n0)); }
-                _ => {}
-            }
-        }
-"""
-
-
 def method(name, ensures, extra=(), inserts=(), oblp="C03.V.dekind."):
     vpos = {"deserialize_unit_struct": 2, "deserialize_newtype_struct": 2, "deserialize_tuple": 2, "deserialize_tuple_struct": 3,
             "deserialize_struct": 3, "deserialize_enum": 3}.get(name, 1)
@@ -46,6 +36,8 @@ def varint_kind(name, w, val):
             },""" % dict(w=w, o=ORIG, n=NOW, t=name[len("deserialize_"):], val=val, e1=ERR % "DeserializeUnexpectedEnd", e2=ERR % "DeserializeBadVarint"))
 
 
+# the n bytes after the count prefix, written the way the code takes them: first the prefix is consumed, then n bytes of what is left
+BODY = "%s.subrange(used, %s.len() as int).subrange(0, n as int)" % (ORIG, ORIG)
 LEN_PREFIXED = """            match dec_u64(%(o)s) {
                 DecRes::Ok(n, used) =>
                     if used + n <= %(o)s.len() {
@@ -172,7 +164,7 @@ pub proof fn lemma_rt_len_prefixed(b: Seq<u8>, rest: Seq<u8>)
     ensures
         match dec_u64(enc(b.len()) + b + rest) {
             DecRes::Ok(n, used) => n as nat == b.len() && used + n <= (enc(b.len()) + b + rest).len()
-                && (enc(b.len()) + b + rest).subrange(used, used + n) == b
+                && (enc(b.len()) + b + rest).subrange(used, (enc(b.len()) + b + rest).len() as int).subrange(0, n as int) == b
                 && (enc(b.len()) + b + rest).subrange(used + n, (enc(b.len()) + b + rest).len() as int) == rest,
             _ => false,
         },   // @obl:C01.L.rt.len_prefixed
@@ -181,7 +173,7 @@ pub proof fn lemma_rt_len_prefixed(b: Seq<u8>, rest: Seq<u8>)
     lemma_varint_roundtrip_u64(b.len() as u64, b + rest);
     assert(s =~= enc(b.len()) + (b + rest));
     let used = enc(b.len()).len() as int;
-    assert(s.subrange(used, used + b.len()) =~= b);
+    assert(s.subrange(used, s.len() as int).subrange(0, b.len() as int) =~= b);
     assert(s.subrange(used + b.len(), s.len() as int) =~= rest);
 }
 """
@@ -221,18 +213,16 @@ UNIT = dict(
     ] + [varint_kind("deserialize_i%d" % b, "u%d" % b, "unzz(v as nat) as i%d" % b) for b in [16, 32, 64, 128]
     ] + [
         method("deserialize_bytes", LEN_PREFIXED % dict(o=ORIG, e1=ERR % "DeserializeUnexpectedEnd", e2=ERR % "DeserializeBadVarint",
-               ok="r == §V§.on_bytes(%s.subrange(used, used + n)) && final_rem_ok(%s, %s, used + n)" % (ORIG, ORIG, NOW)),
-               inserts=[(r"before:\w+\.visit_borrowed_bytes", HINT)]),
+               ok="r == §V§.on_bytes(%s) && final_rem_ok(%s, %s, used + n)" % (BODY, ORIG, NOW))),
         method("deserialize_byte_buf", LEN_PREFIXED % dict(o=ORIG, e1=ERR % "DeserializeUnexpectedEnd", e2=ERR % "DeserializeBadVarint",
-               ok="r == §V§.on_bytes(%s.subrange(used, used + n)) && final_rem_ok(%s, %s, used + n)" % (ORIG, ORIG, NOW))),
+               ok="r == §V§.on_bytes(%s) && final_rem_ok(%s, %s, used + n)" % (BODY, ORIG, NOW))),
         method("deserialize_str", LEN_PREFIXED % dict(o=ORIG, e1=ERR % "DeserializeUnexpectedEnd", e2=ERR % "DeserializeBadVarint",
-               ok="if utf8_ok(%(o)s.subrange(used, used + n)) { r == §V§.on_str(%(o)s.subrange(used, used + n)) && final_rem_ok(%(o)s, %(nw)s, used + n) } else { r == %(e)s }"
-                  % dict(o=ORIG, nw=NOW, e=ERR % "DeserializeBadUtf8")),
-               extra=[(r"core::str::from_utf8\((\w+)\)\s*\.map_err\(\|_\| Error::DeserializeBadUtf8\)", r"from_utf8_or_bad(\1)", 1, 1)],   # D19
-               inserts=[(r"before:let \w+ = from_utf8_or_bad", HINT)]),
+               ok="if utf8_ok(%(b)s) { r == §V§.on_str(%(b)s) && final_rem_ok(%(o)s, %(nw)s, used + n) } else { r == %(e)s }"
+                  % dict(o=ORIG, b=BODY, nw=NOW, e=ERR % "DeserializeBadUtf8")),
+               extra=[(r"core::str::from_utf8\((\w+)\)\s*\.map_err\(\|_\| Error::DeserializeBadUtf8\)", r"from_utf8_or_bad(\1)", 1, 1)]),   # D19
         method("deserialize_string", LEN_PREFIXED % dict(o=ORIG, e1=ERR % "DeserializeUnexpectedEnd", e2=ERR % "DeserializeBadVarint",
-               ok="if utf8_ok(%(o)s.subrange(used, used + n)) { r == §V§.on_str(%(o)s.subrange(used, used + n)) && final_rem_ok(%(o)s, %(nw)s, used + n) } else { r == %(e)s }"
-                  % dict(o=ORIG, nw=NOW, e=ERR % "DeserializeBadUtf8"))),
+               ok="if utf8_ok(%(b)s) { r == §V§.on_str(%(b)s) && final_rem_ok(%(o)s, %(nw)s, used + n) } else { r == %(e)s }"
+                  % dict(o=ORIG, b=BODY, nw=NOW, e=ERR % "DeserializeBadUtf8"))),
         method("deserialize_option", """            %(o)s.len() == 0 ==> r == %(e1)s,
             %(o)s.len() > 0 && %(o)s[0] == 0 ==> r == §V§.on_none() && final_rem_ok(%(o)s, %(n)s, 1),
             %(o)s.len() > 0 && %(o)s[0] == 1 ==> (r, %(n)s) == §V§.on_some(%(o)s.drop_first()),
